@@ -413,8 +413,12 @@ class RefCrawl:
             return {'kind': 'offsite'}
         return {'kind': 'missing'}
 
-    def accept(self, url, level, inline_level, tries, root=None):
-        """The scope options' verdict for requesting `url` under a record (level, inline_level, try count)."""
+    def accept(self, url, level, inline_level, tries, root=None, hook=True):
+        """The scope options' verdict for requesting `url` under a record (level, inline_level, try count).  `hook`: at
+        fetch time a script's accept_url hook has the last word (option 'plugin_accept': a plugin that keeps every URL
+        matching the pattern, whatever the filters say); the pre-insert filter of scraped links does not ask it."""
+        if hook and self.o.get('plugin_accept') and re.search(self.o['plugin_accept'], url):
+            return True
         o = self.o
         u = urllib.parse.urlsplit(url)
         if u.scheme not in ('http', 'https', 'ftp'):
@@ -505,7 +509,7 @@ class RefCrawl:
             seen.add(key)
             child_inline = ((inline_level or 0) + 1) if inline else 0
             # scrape-time filter: the *page's* URL with the child's record
-            if not self.accept(cur, level + 1, child_inline, 0):
+            if not self.accept(cur, level + 1, child_inline, 0, hook=False):
                 continue
             kids.append((c, inline))
         return requests, 'd', kids
@@ -793,6 +797,21 @@ def run_real(site, opts, seed, concurrent, start_urls=None, workdir=None, db=Non
         merged.append(ev)
         if event_sink:
             event_sink(ev)
+    import wpull.processor.rule as pr_
+    orig_rule_init = pr_.FetchRule.__init__
+    if opts.get('plugin_accept'):
+        from wpull.application.plugin import PluginFunctions
+
+        def rule_init(self, *a, **k):
+            orig_rule_init(self, *a, **k)
+
+            def accept_url(item_session, verdict, reasons):
+                # a plugin that widens the scope: it keeps what matches its pattern, and leaves the rest alone
+                req = getattr(item_session, 'request', None)
+                url = req.url_info.url if req is not None else item_session.url_record.url
+                return True if re.search(opts['plugin_accept'], url) else verdict
+            self.hook_dispatcher.connect(PluginFunctions.accept_url, accept_url)
+        pr_.FetchRule.__init__ = rule_init
     pw.WebProcessorSession._fetch_one = fetch_one
     ps.ItemSession.finish = tagged(orig_finish, 'finish')
     ps.ItemSession.set_status = tagged(orig_set_status, 'status')
@@ -818,6 +837,7 @@ def run_real(site, opts, seed, concurrent, start_urls=None, workdir=None, db=Non
     finally:
         if tmp_input:
             os.unlink(tmp_input)
+        pr_.FetchRule.__init__ = orig_rule_init
         pw.WebProcessorSession._fetch_one = orig_fetch_one
         ps.ItemSession.finish = orig_finish
         ps.ItemSession.set_status = orig_set_status
